@@ -603,25 +603,31 @@ fn check_semantic(rep: &Report, rng: &mut Rng, core: Option<usize>) {
             lines.push(String::new());
         }
     }
-    let (bad, class): (&str, &str) = *rng.pick(&[
-        ("jmp nowhere", "undefined-label"),
-        ("loop nowhere2", "undefined-label"),
-        ("mov al,300", "constant-range"),
-        ("mov ax, byte x", "width-mix"),
-        ("add word w, byte x", "two-memory"),
-        ("call start", "call-non-procedure"),
-        ("jmp x", "jump-to-data"),
-        ("mov ax, offset start", "offset-of-code"),
-        ("mov ax, word nolabel", "unknown-name"),
-        ("int 5", "unsupported-interrupt"),
-        ("in al,5", "unsupported-instruction"),
-        ("start: mov ax,1", "duplicate-label"),
-        ("shl ax,300", "constant-range"),
-        ("mjmp(nowhere3)", "undefined-label-in-macro"),
-        ("mjmp(a_rather_long_label_name_that_is_not_defined_anywhere)", "undefined-label-in-macro"),
-        ("mout(nowhere4)", "undefined-label-in-nested-macro"),
-        ("mimm(300)", "constant-range-in-macro"),
-        ("mjmp(x)", "jump-to-data-in-macro"),
+    // (text, class, token whose column the diagnostic must name when the offending token is unambiguous)
+    let (bad, class, tok): (&str, &str, Option<&str>) = *rng.pick(&[
+        ("jmp nowhere", "undefined-label", None),
+        ("loop nowhere2", "undefined-label", None),
+        ("mov al,300", "constant-range", Some("300")),
+        ("mov   bl,   0x1FF", "constant-range", Some("0x1FF")),
+        ("  add cl, 0b100000000", "constant-range", Some("0b100000000")),
+        ("int 0x100", "constant-range", Some("0x100")),
+        ("mov ax,  0x10000", "constant-range", Some("0x10000")),
+        ("\tmov dx, 65536", "constant-range", Some("65536")),
+        ("mov ax, byte x", "width-mix", None),
+        ("add word w, byte x", "two-memory", None),
+        ("call start", "call-non-procedure", None),
+        ("jmp x", "jump-to-data", None),
+        ("mov ax, offset start", "offset-of-code", None),
+        ("mov ax, word nolabel", "unknown-name", None),
+        ("int 5", "unsupported-interrupt", None),
+        ("in al,5", "unsupported-instruction", None),
+        ("start: mov ax,1", "duplicate-label", None),
+        ("shl ax,300", "constant-range", Some("300")),
+        ("mjmp(nowhere3)", "undefined-label-in-macro", None),
+        ("mjmp(a_rather_long_label_name_that_is_not_defined_anywhere)", "undefined-label-in-macro", None),
+        ("mout(nowhere4)", "undefined-label-in-nested-macro", None),
+        ("mimm(300)", "constant-range-in-macro", None),
+        ("mjmp(x)", "jump-to-data-in-macro", None),
     ]);
     lines.push(bad.to_string());
     let bad_line = lines.len();
@@ -644,7 +650,7 @@ fn check_semantic(rep: &Report, rng: &mut Rng, core: Option<usize>) {
     }
     // duplicate definitions may cite either definition
     let accept: Vec<usize> = if class == "duplicate-label" { vec![bad_line, 9] } else { vec![bad_line] };
-    let head = plain.rfind(bad).map(|i| &plain[..i]).unwrap_or(&plain[..]);
+    let head = plain.rfind(bad.trim()).map(|i| &plain[..i]).unwrap_or(&plain[..]);
     let nums = ints(head);
     let fail = |sig: String, what: String| {
         rep.fail(Failure {
@@ -661,8 +667,20 @@ fn check_semantic(rep: &Report, rng: &mut Rng, core: Option<usize>) {
     }
     if !accept.iter().any(|l| nums.contains(l)) {
         fail(format!("diag:{}:{}:line-number", class, where_), format!("C16: the diagnostic for `{}` does not cite the line of the offending instruction", class));
-    } else if class != "duplicate-label" && !plain.contains(bad) {
+    } else if class != "duplicate-label" && !plain.contains(bad.trim()) {
         fail(format!("diag:{}:{}:line-text", class, where_), format!("C16: the diagnostic for `{}` does not show the text of the offending line", class));
+    } else if let Some(t) = tok {
+        // the column of the offending token, counted from 0 or from 1, among the numbers in front of the quoted text
+        // (one occurrence of the line number set aside)
+        let col = bad.find(t).unwrap_or(0);
+        let mut rest = nums.clone();
+        if let Some(p) = rest.iter().position(|n| *n == bad_line) {
+            rest.remove(p);
+        }
+        rep.count("semantic diagnostics whose column was compared", 1);
+        if !rest.contains(&col) && !rest.contains(&(col + 1)) {
+            fail(format!("diag:{}:{}:column", class, where_), format!("C16: the diagnostic for `{}` does not name the column of the offending token", class));
+        }
     }
 }
 
